@@ -173,6 +173,73 @@ theorem cache_sound (verify : Verify) (steps : List AuthStep) (user pw : String)
       · rename_i hv; exact hv
       · simp at h
 
+/-! ### the HTTP front -/
+
+/-- **While no administrator exists no write is accepted**, whatever credentials the request
+carries (the authentication middleware lets such a request through without a user; the write
+handler must then refuse it). -/
+theorem http_no_admin_no_write (verify : Verify) (n : Node) (c : Carrier) (user pw db : String) (dbExists : Bool)
+    (h : n.users.any (·.admin) = false) : (httpWrite verify n c user pw db dbExists).2 ≠ 204 := by
+  unfold httpWrite httpUser
+  simp only [h, Bool.not_false, if_true]
+  split <;> simp
+
+/-- **A write is accepted only for a user the node knows who may write to the database**, and
+if the request carried a password, only if that password was accepted for the user. -/
+theorem http_write_needs_writer (verify : Verify) (n : Node) (c : Carrier) (user pw db : String) (dbExists : Bool)
+    (h : (httpWrite verify n c user pw db dbExists).2 = 204) :
+    ∃ n' u, (httpUser verify n c user pw) = (n', some (some u)) ∧ authorizeWrite n'.users u.name db = true := by
+  unfold httpWrite at h
+  cases hu : httpUser verify n c user pw with
+  | mk n' ou =>
+    simp only [hu] at h
+    cases ou with
+    | none => simp at h
+    | some u =>
+      simp only at h
+      split at h
+      · simp at h
+      · cases u with
+        | none => simp at h
+        | some u =>
+          simp only at h
+          refine ⟨n', u, rfl, ?_⟩
+          by_cases ha : authorizeWrite n'.users u.name db = true
+          · exact ha
+          · simp [ha] at h
+
+/-- a request that carries a password runs as a user only if `Authenticate` accepted the
+password for that name -/
+theorem http_password_checked (verify : Verify) (n : Node) (user pw : String) (n' : Node) (u : User)
+    (hadm : n.users.any (·.admin) = true)
+    (h : httpUser verify n .password user pw = (n', some (some u))) :
+    (authBegin verify n user pw).2 ≠ .rejected := by
+  unfold httpUser at h
+  simp only [hadm, Bool.not_true, Bool.false_eq_true, if_false] at h
+  split at h
+  · simp at h
+  · intro hrej
+    simp only [hrej] at h
+    simp at h
+
+/-- **A query request is executed only if it is authorised**: status 200 means the statements
+passed `AuthorizeQuery` for the user the request runs as. -/
+theorem http_query_needs_authorization (verify : Verify) (n : Node) (c : Carrier) (user pw : String)
+    (q : List Stmt) (db : String) (h : (httpQuery verify n c user pw q db).2 = 200) :
+    ∃ n' u, httpUser verify n c user pw = (n', some u) ∧ authorizeQuery n'.users.length u q db = true := by
+  unfold httpQuery at h
+  cases hu : httpUser verify n c user pw with
+  | mk n' ou =>
+    simp only [hu] at h
+    cases ou with
+    | none => simp at h
+    | some u =>
+      simp only at h
+      refine ⟨n', u, rfl, ?_⟩
+      by_cases ha : authorizeQuery n'.users.length u q db = true
+      · exact ha
+      · simp [ha] at h
+
 /-! ### Tie to the code: Gen/C16.lean (RequiredPrivileges executed per statement kind) -/
 
 /-- every statement kind of the linked influxql that defines `RequiredPrivileges` is
